@@ -632,6 +632,14 @@ func (x *Exec) callCommon(fr *frame, st *State, cc *ssa.CallCommon, args []Val, 
 	if ct, recvAddr := x.callbackContract(cc); ct != nil {
 		return x.applyContract(ct, nil, sig, x.val(fr, recvAddr), args, st, reach, where)
 	}
+	if n, ok := cc.Value.Type().(*types.Named); ok && n.Obj().Pkg() != nil && n.Obj().Pkg().Path() == "context" && n.Obj().Name() == "CancelFunc" {
+		// calling a context.CancelFunc cancels the context (and every timer armed with
+		// it): recorded in the ghost `cancelCalled` when a contract file declares it
+		if gv, ok := st.ghost["cancelCalled"]; ok && len(gv.L) == 1 {
+			st.ghost["cancelCalled"] = Val{T: gv.T, L: []Term{Ite(reach, TTrue, gv.L[0])}}
+		}
+		return x.freshResults(sig, "cancel")
+	}
 	x.havocCall(st, cc, "call through function value in "+fr.fn.String())
 	return x.freshResults(sig, "fv")
 }
